@@ -11,7 +11,7 @@ use refimpl::wire::{NegReply, INFO_AUTOLOGON};
 use serde::{Deserialize, Serialize};
 
 pub const LEVEL: &str = "exploration";
-pub const RULE: &str = "case = (option combination of {NLA, restricted admin, blank credentials, auto logon, password vs NT hash}, credential strings, server certificate key type) run as a whole connection through Connector::connect over real TLS against the reference CredSSP/NTLM + RDP server. Oracle: TSCredentials (unsealed by the reference server) and Client Info (strictly parsed) carry exactly what the mode prescribes (restricted admin: both empty and RESTRICTED_ADMIN_MODE_REQUIRED in the negotiation request; blank credentials: TSCredentials empty, Client Info populated; hash mode: TSCredentials password empty; INFO_AUTOLOGON iff requested); the password's UTF-8 / UTF-16LE / UTF-16BE encodings occur nowhere in the raw-transport transcript, in the NTLM tokens, or in any TLS-protected message other than TSCredentials and Client Info. option-matrix enumerates all 32 combinations twice with generated strings, and again x {empty, short, long, non-ASCII} password x {empty, non-empty} domain x {certificate checking on with the CA-signed identity, off}. Non-trivial = password with >= 6 UTF-16 units of which >= 4 distinct; distinct by hash of the case.";
+pub const RULE: &str = "case = (option combination of {NLA, restricted admin, blank credentials, auto logon, password vs NT hash}, credential strings, server certificate key type) run as a whole connection through Connector::connect over real TLS against the reference CredSSP/NTLM + RDP server. Oracle: TSCredentials (unsealed by the reference server) and Client Info (strictly parsed) carry exactly what the mode prescribes (restricted admin: both empty and RESTRICTED_ADMIN_MODE_REQUIRED in the negotiation request; blank credentials: TSCredentials empty, Client Info populated; hash mode: TSCredentials password empty; INFO_AUTOLOGON iff requested); the password's UTF-8 / UTF-16LE / UTF-16BE encodings occur nowhere in the raw-transport transcript, in the NTLM tokens, or in any TLS-protected message other than TSCredentials and Client Info. clear-text-server: the negotiation reply selects plain RDP security or nothing at all (never offered) and the reference server carries on in clear text, the raw transcript must not contain the password whatever connect returns. option-matrix enumerates all 32 combinations twice with generated strings, and again x {empty, short, long, non-ASCII} password x {empty, non-empty} domain x {certificate checking on with the CA-signed identity, off}. Non-trivial = password with >= 6 UTF-16 units of which >= 4 distinct; distinct by hash of the case.";
 
 #[derive(Serialize, Deserialize, Hash, Clone, Debug)]
 pub struct Case {
@@ -66,6 +66,9 @@ pub fn run(c: &Case) -> Outcome {
     }
     if c.cfg.hash.is_some() {
         out.label("hash");
+    }
+    if c.cfg.nla && c.challenge.flags & ntlm::NEG_UNICODE == 0 {
+        out.label("oem-challenge");
     }
     if run.client_timeout || run.report.timeout {
         out.fail("inconclusive:timeout", "a socket timeout hit (machine too slow or a hang); not counted as a violation");
@@ -202,6 +205,127 @@ pub fn run(c: &Case) -> Outcome {
     out
 }
 
+/// A server that answers the negotiation with something other than an offered protocol and then simply carries on
+/// in clear text (connect response, attach-user / join confirms, licence): whatever the client does with that, the
+/// password must not reach the raw transport.
+#[derive(Serialize, Deserialize, Hash, Clone, Debug)]
+pub struct ClearCase {
+    pub base: Case,
+    pub reply: NegReply,
+}
+
+struct NegLane {
+    inner: crate::mem::Duplex,
+    h: crate::mem::Handle,
+    confirm: Vec<u8>,
+    seen_cr: bool,
+    raw: std::rc::Rc<std::cell::RefCell<Vec<u8>>>,
+}
+
+impl std::io::Read for NegLane {
+    fn read(&mut self, buf: &mut [u8]) -> std::io::Result<usize> {
+        self.inner.read(buf)
+    }
+}
+
+impl std::io::Write for NegLane {
+    fn write(&mut self, buf: &[u8]) -> std::io::Result<usize> {
+        engine::guard::unaccounted(|| self.raw.borrow_mut().extend_from_slice(buf));
+        if !self.seen_cr {
+            self.seen_cr = true;
+            self.h.borrow_mut().push(&self.confirm);
+            return Ok(buf.len());
+        }
+        self.inner.write(buf)
+    }
+    fn flush(&mut self) -> std::io::Result<()> {
+        Ok(())
+    }
+}
+
+pub fn run_clear(c: &ClearCase) -> Outcome {
+    use crate::util::call;
+    let mut out = Outcome::new();
+    out.nontrivial(searchable(&c.base.cfg.password));
+    let selected = match &c.reply {
+        NegReply::Response { selected, .. } => Some(*selected),
+        _ => None,
+    };
+    out.label(match selected {
+        Some(0) => "selects-plain-rdp",
+        Some(_) => "selects-other",
+        None => "no-selection",
+    });
+    let mut profile = ServerProfile::simple(c.base.user_id, 0x000103EA);
+    profile.selected_protocol = selected.unwrap_or(0);
+    let (duplex, h) = crate::mem::new_duplex(profile, None);
+    let raw = std::rc::Rc::new(std::cell::RefCell::new(Vec::new()));
+    let lane = NegLane { inner: duplex, h: h.clone(), confirm: refimpl::wire::connection_confirm(&c.reply).bytes, seen_cr: false, raw: raw.clone() };
+    let mut connector = tls::connector_of(&c.base.cfg);
+    let (r, _) = call(move || connector.connect(lane).map(|_| ()));
+    match r {
+        Res::Panic(p) => {
+            fail_panic(&mut out, "Connector::connect", &p);
+            return out;
+        }
+        Res::Ok(()) => {
+            out.label("ok");
+        }
+        Res::Err(_) => {
+            out.label("err");
+        }
+    }
+    if searchable(&c.base.cfg.password) {
+        let raw = raw.borrow();
+        for (name, n) in [("utf-8", c.base.cfg.password.as_bytes().to_vec()), ("utf-16le", crypto::utf16le(&c.base.cfg.password)), ("utf-16be", c.base.cfg.password.encode_utf16().flat_map(|u| [(u >> 8) as u8, u as u8]).collect())] {
+            if find(&raw, &n) {
+                out.fail("secrets:password-on-raw-transport", format!("the {} password occurs on the raw transport after the negotiation reply {:?} ({} bytes written in clear)", name, c.reply, raw.len()));
+                return out;
+            }
+        }
+    }
+    out
+}
+
+fn clear_cases() -> Vec<ClearCase> {
+    let mut v = Vec::new();
+    let replies = [
+        NegReply::Response { flags: 0, selected: 0 },
+        NegReply::Response { flags: 0x1F, selected: 0 },
+        NegReply::Absent,
+        NegReply::Failure { flags: 0, code: 2 },
+        NegReply::Response { flags: 0, selected: 4 },
+        NegReply::Response { flags: 0, selected: 0x10 },
+        NegReply::Response { flags: 0, selected: 0x100 },
+        NegReply::Other { typ: 1, flags: 0, length: 8, value: 0 },
+        NegReply::Other { typ: 0, flags: 0, length: 8, value: 0 },
+    ];
+    for bits in 0..32u8 {
+        for (ri, r) in replies.iter().enumerate() {
+            let seed = [bits ^ 0x33, ri as u8, 9, 77, 31, 250, 4, 180, 66, 10, 20, 30, 222, 111, 5, 77, 200];
+            let mut b = gen_case(&mut Src::new(&seed), Some(bits));
+            b.cfg.password = format!("Clr#{}-p4ss-{}", bits, ri);
+            v.push(ClearCase { base: b, reply: r.clone() });
+        }
+    }
+    v
+}
+
+pub fn decode_clear(s: &mut Src) -> ClearCase {
+    let reply = match s.below(8) {
+        0 | 1 | 2 => NegReply::Response { flags: s.u8(), selected: s.pick(&[0u32, 0, 0, 4, 8, 16, 0x100]) },
+        3 => NegReply::Absent,
+        4 => NegReply::Failure { flags: s.u8(), code: s.b32() },
+        5 => NegReply::Other { typ: s.u8(), flags: s.u8(), length: s.b16(), value: s.b32() },
+        _ => NegReply::Response { flags: s.u8(), selected: s.b32() },
+    };
+    let mut base = gen_case(s, None);
+    if !searchable(&base.cfg.password) {
+        base.cfg.password = format!("{}S3cr#t-{}", base.cfg.password, s.below(1000));
+    }
+    ClearCase { base, reply }
+}
+
 pub fn gen_case(s: &mut Src, opts: Option<u8>) -> Case {
     let bits = opts.unwrap_or_else(|| s.below(32) as u8);
     let domain = gen_name(s, 12);
@@ -219,6 +343,10 @@ pub fn gen_case(s: &mut Src, opts: Option<u8>) -> Case {
     }
     let mut challenge = gen_challenge(s, true);
     challenge.flags |= ntlm::NEG_UNICODE;
+    // a server that answers in the OEM character set (no NTLMSSP_NEGOTIATE_UNICODE): only with ASCII identities, see C15
+    if domain.is_ascii() && user.is_ascii() && password.is_ascii() && s.chance(64) {
+        challenge.flags &= !ntlm::NEG_UNICODE;
+    }
     let cfg = ClientCfg {
         width: 1024,
         height: 768,
@@ -257,6 +385,12 @@ fn matrix() -> Vec<Case> {
                     c.cfg.user = "Administrator".into();
                     c.cfg.check_certificate = check;
                     c.identity = if check { 0 } else { 1 + (pi as u8 % 3) };
+                    c.challenge.flags |= ntlm::NEG_UNICODE;
+                    if pi < 3 && bits & 1 != 0 && !check {
+                        let mut o = c.clone();
+                        o.challenge.flags &= !ntlm::NEG_UNICODE;
+                        v.push(o);
+                    }
                     v.push(c);
                 }
             }
@@ -267,12 +401,16 @@ fn matrix() -> Vec<Case> {
 
 pub fn check(rep: &Report) {
     tls::pki();
-    rep.assume("the reference server negotiates NTLMSSP_NEGOTIATE_UNICODE (as every Windows server does)");
+    rep.assume("the reference server answers without NTLMSSP_NEGOTIATE_UNICODE (OEM strings) only when domain, user and password are ASCII");
     rep.assume("the negative search uses passwords of >= 6 UTF-16 units with >= 4 distinct units; shorter ones are run but not searched for");
     rep.assume("side channels other than bytes on the transport are out of scope");
     rep.list("option-matrix", matrix(), run);
+    rep.list("clear-text-server", clear_cases(), run_clear);
+    rep.random("clear-text-server-random", rep.tier.n(20_000, 500_000), 160, decode_clear, run_clear);
+    rep.require("clear-text-server-random", "selects-plain-rdp", 2000);
     rep.random("connections", rep.tier.n(1_500, 50_000), 160, |s| gen_case(s, None), run);
     rep.require("connections", "restricted-admin", 100);
     rep.require("connections", "blank-creds", 100);
     rep.require("connections", "hash", 100);
+    rep.require("option-matrix", "oem-challenge", 50);
 }
